@@ -63,7 +63,8 @@ func (t *T) UnifyVariants() *T {
 			narrowedUntypedUnion = variantT.DeepCopy()
 		}
 
-		if !narrowedUntypedUnion.IsUnknownType() && isNarrowed {
+		// two unknown variants narrow to nothing: the union itself stands
+		if narrowedUntypedUnion != nil && !narrowedUntypedUnion.IsUnknownType() && isNarrowed {
 			return narrowedUntypedUnion
 		}
 	}
